@@ -24,6 +24,13 @@ Definition enc_cotp (code dst_ref src_ref : Z) (data : bytes) : option bytes :=
 (* MS-RDPBCGR: type (1: 0x01 request, 0x02 response), flags (1), length (2, little-endian, = 8), protocols (4, little-endian) *)
 Definition enc_rdp_neg (ty flags protocols : Z) : bytes := enc_uint 1 ty ++ enc_uint 1 flags ++ enc_uint_le 2 8 ++ enc_uint_le 4 protocols.
 
+Definition dec_rdp_neg (b : bytes) : option (Z * Z * Z * bytes) :=
+  match b with
+  | t :: f :: l0 :: l1 :: p0 :: p1 :: p2 :: p3 :: rest =>
+      if (b2z l0 + 256 * b2z l1 =? 8) then Some (b2z t, b2z f, b2z p0 + 256 * (b2z p1 + 256 * (b2z p2 + 256 * b2z p3)), rest) else None
+  | _ => None
+  end.
+
 (* MySQL packet: payload length (3, little-endian), sequence id (1), payload *)
 Definition enc_mysql_packet (seq : Z) (payload : bytes) : option bytes :=
   if 16777215 <? zlen payload then None else Some (enc_uint_le 3 (zlen payload) ++ enc_uint 1 seq ++ payload).
